@@ -30,7 +30,12 @@ func main() {
 	workers := fs.Int("workers", 0, "worker goroutines (default GOMAXPROCS, max 16)")
 	mul := fs.Float64("mul", 0, "scale the number of runs")
 	dir := fs.String("dir", envOr("VERIF_DIR", "/verif"), "verif directory")
+	only := fs.Int64("only", -1, "execute only this run index, with tracing")
+	out := fs.String("out", "", "directory for evidence/ and replays/ (default: -dir)")
 	fs.Parse(os.Args[2:])
+	if *out == "" {
+		*out = *dir
+	}
 	seed, err := strconv.ParseUint(*seedS, 10, 64)
 	if err != nil {
 		// VERIF_SEED may be any integer; fold negatives
@@ -41,7 +46,7 @@ func main() {
 		}
 		seed = uint64(s)
 	}
-	o := sim.Options{Dir: *dir, Seed: seed, Thorough: *tier == "thorough", Replay: *replay, Workers: *workers, RunsMul: *mul}
+	o := sim.Options{Dir: *dir, Out: *out, Seed: seed, Thorough: *tier == "thorough", Replay: *replay, Workers: *workers, RunsMul: *mul, Only: *only}
 	if id == "selftest" {
 		os.Exit(props.SelfTest(o))
 	}
